@@ -2,4 +2,8 @@
 pub mod log {
     macro_rules! warn_ { ($($t:tt)*) => {}; }
     pub(crate) use warn_ as warn;
+    macro_rules! trace_ { ($($t:tt)*) => {}; }
+    pub(crate) use trace_ as trace;
+    macro_rules! debug_ { ($($t:tt)*) => {}; }
+    pub(crate) use debug_ as debug;
 }
